@@ -24,7 +24,8 @@ ID = 'C11'
 LEVEL = 'exploration'
 RULE = ('history = seeded tree x TZ in {UTC, XXX-8, XXX8, XXX-5:30, XXX12} x up to N '
         'rounds of 1..5 operations {add, delete, modify same size, modify other size, '
-        'touch} with mtimes set relative to the previous TIMESTAMP (older, equal, +1 s, '
+        'touch, add a directory that brings its own (chain of) unreferenced Manifests, '
+        'right or stale} with mtimes set relative to the previous TIMESTAMP (older, equal, +1 s, '
         '+1 h, +10 h), replayed on an incremental and a full replica; inject = one '
         'running update per file index with that file modified right after it was '
         'hashed. Rounds containing a same-size change with mtime <= TIMESTAMP are '
